@@ -1,5 +1,5 @@
 SPECIFICATION Spec
-CONSTANT W = 64
+CONSTANT W = 1024
 INVARIANT Final
 POSTCONDITION Consumed
 CHECK_DEADLOCK FALSE
